@@ -6,7 +6,8 @@ import ast
 
 from ..core import rule
 from ..dataflow import DefUse
-from ..program import AnalysisError, dotted, src, walk_local
+from ..program import AnalysisError, dotted, src
+from ..core import walk_local  # inline-aware
 from .common import handler_catching, handler_body_nodes, raise_ctor_args, translation, where
 from .storelib import facts, node_desc
 from .c01 import response_status
